@@ -28,7 +28,8 @@ def populated(label, thunk, rng):
             clk.t = clock_tuple(i)
             ir.op(op)
         # a file over several clusters: the target of the rejected open('w') / truncate below
-        for op in (["open", "pm", "/MULTI.BIN", "w"], ["write", "pm", "6d" * 5000], ["hclose", "pm"]):
+        # ... and a file without any cluster (C10-m6)
+        for op in (["open", "pm", "/MULTI.BIN", "w"], ["write", "pm", "6d" * 5000], ["hclose", "pm"], ["create", "/EMPTY.TXT"]):
             ir.op(op)
         for h in list(ir.handles):
             ir.op(["hclose", h])
@@ -73,12 +74,13 @@ def run(ctx):
             how = ["clean", "boot", "fat", "both"][(i // len(vols)) % 4]
             img = make_dirty(base, how, meta.get("ft")) if how != "clean" else base
             # what a read-write mount of the same image reports (reference for reads)
-            want_tree, _ = history.remount_walk(img, 0, "ibm437", True, read_only=True)
+            want_tree, _ = history.remount_walk(img, 0, "ibm437", True, read_only=False)
             paths = {"f": sorted(p for p, t in want_tree.items() if t[0] == "f"), "d": sorted(p for p, t in want_tree.items() if t[0] == "d")}
             reads = [["listdir", "/"]] + [["listdir", d] for d in paths["d"][:3]] + [["getinfo", p] for p in (paths["f"] + paths["d"])[:4]] + \
                     [["exists", "/nope"], ["getsize", rng.choice(paths["f"] or ["/nope"])], ["open", "r1", rng.choice(paths["f"] or ["/nope"]), "r"],
                      ["read", "r1", -1], ["seek", "r1", 0, 0], ["read", "r1", 10], ["hclose", "r1"]]
-            for fi, p in enumerate((["/MULTI.BIN"] if "/MULTI.BIN" in paths["f"] else []) + [q for q in paths["f"] if q != "/MULTI.BIN"][:5]):   # every byte of some files
+            fixed = [q for q in ("/MULTI.BIN", "/EMPTY.TXT") if q in paths["f"]]
+            for fi, p in enumerate(fixed + [q for q in paths["f"] if q not in fixed][:5]):   # every byte of some files
                 reads = [["open", f"a{fi}", p, "r"], ["read", f"a{fi}", -1], ["hclose", f"a{fi}"]] + reads if fi == 0 else \
                     reads + [["open", f"a{fi}", p, "r"], ["read", f"a{fi}", -1], ["hclose", f"a{fi}"]]
             muts = MUT(paths, rng)
@@ -121,6 +123,11 @@ def run(ctx):
                     if key in read_results and read_results[key] != v:
                         ctx.violation(f"{label}/{how}: read {op[:2]} changed its answer after rejected mutations: {str(v)[:80]}", f"ro-read-changed:{op[0]}", dict(rep, at=k))
                     read_results.setdefault(key, v)
+                # "serves every read": what exists in the image can be listed, asked about, opened for reading and read (C10-m6: empty files)
+                if ires[0] == "err" and ((op[0] in ("listdir", "getinfo", "getsize") and (op[1] in want_tree or op[1] == "/")) or
+                                         (op[0] == "open" and op[3] == "r" and op[2] in want_tree and want_tree[op[2]][0] == "f") or
+                                         (op[0] == "read" and not op[1].startswith("m"))):
+                    ctx.violation(f"{label}/{how}: the read-only mount refuses the read {op[:4]}: {ires[1]}", f"ro-read-refused:{op[0]}", dict(rep, at=k))
                 if op[0] in ("listdir", "getinfo", "exists", "getsize", "read") and str(ires[1]).startswith("INTERNAL"):
                     ctx.violation(f"{label}/{how}: read {op[:2]} raised {ires[1]}", f"ro-read-internal:{op[0]}", dict(rep, at=k))
             r = tie.run_program(img, ops, mount=dict(read_only=True), model=m, on_step=on_step)
